@@ -63,6 +63,50 @@ CLAIMS['C13'] = ('proof', 'Lean 4 theorems over an arbitrary field on a transcri
     'pargrad_linear(_coeffs), weights_sum_zero, pargrad_constants_zero, pargrad_fieldline_constant_zero, pargrad_commutes_z_shift, stencil_symmetric_even_order, stencil_odd_order, '
     'fd_exact_for_polynomials_partial, fd_truncation_bound; the analytic convergence clause stays a stated-only def (fd_converges_with_order_statement) and is measured as a test. '
     'FD weights from numpy.linalg.solve enter as the moment-system contract whose residual is measured exactly.', NOTE_COMMON, 'DESIGN.md 4/C13')
+
+CLAIMS['C07'] = ('proof', 'Lean 4 theorems over an arbitrary ordered field on transcriptions of the general and uniform-cubic spline kernels + exact-rational correspondence with every entry point',
+    '23 theorems: findSpan_some_correct (the binary search terminates within its fuel and returns the containing cell), findSpan_unique, basis_sum_one, basis_nonneg, ders_sum_zero, '
+    'basisFuns_eq_coxDeBoor, evalSpline1D_eq_dot/_eq_sum/_right_end (value = sum c_i N_{i,p}(x) on the closed domain), entrypoints, evalSpline2D_eq_tensor, cubic_eq_general, '
+    'cuFindSpan_correct, cubic_same_cell, cubic_path_eq_general_path(_2d), ders_is_derivative (degree-lowering output = formal derivative of the cell polynomial in K[X]), '
+    'evalSpline1D_der_is_derivative, periodic_shift, periodic_ends_equal. The array/vector/cross/in-place entry points (hand-duplicated loops in the code) are tied to the scalar kernels by '
+    'the correspondence, not by theorems. Model at Q vs Spline1D/2D.eval, eval_vector, BSplines[i], all raw nu_*/cu_* kernels, all (der1,der2), breakpoints, ends, one ulp inside; '
+    'independent oracle scipy.interpolate.BSpline + identities.', NOTE_COMMON, 'DESIGN.md 4/C07')
+CLAIMS['C08'] = ('proof', 'Lean 4 theorems (index bookkeeping of collocation, periodic wrap, banded storage, two-sweep 2-D solve) under the linear-solver contract + exact-rational residual/value correspondence',
+    'wrap_consistent, computeInterpolant1D_spec, eval_eq_collocRow, interp_reproduces_1d(_cu), interp_complex_componentwise, banded_index_roundtrip, bandedStore_entry, '
+    'interp_reproduces_2d(_eval); poly_reproduction_partial only under stated unisolvence (full clause kept as poly_reproduction_statement and decided by the exact-Q model + Fraction oracle = test); '
+    'lastWins_loses_entry is the witness of the defect repaired by fix: b4f719e. LAPACK/SuperLU output is fed to the model, which returns exact residuals (bound CN*eps*sum|M||c|, CN=16384, observed max ratio 73).',
+    NOTE_COMMON + ' Third-party solvers (dgbtrf/dgbtrs, splu) are contracts whose residual is measured on every run.', 'DESIGN.md 4/C08')
+CLAIMS['C09'] = ('proof', 'Lean 4 theorems (quadrature duality, adjoint of the periodic wrap, sums, circulance on uniform periodic knots) + exact-rational correspondence of integrals and weights with independent piecewise integration',
+    'quad_duality, basisQuads_adjoint_of_wrap, quad_integrates_interpolant, weights_sum_domain(_model), collocation_rows_sum_one, fullIntegral_eq, periodic_full_integral, periodic_full_sum, '
+    'uniform_periodic_equal_weights_partial/_model, uniform_periodic_collocation_circulant, witnesses old_mirror_wrong / old_cubic_few_cells_wrong of the defects repaired by fix: f2e708d, 51c4328. '
+    'Not proved (stated-only defs): integrals_antiderivative_statement, uniform_periodic_equal_weights_statement — covered by exact-Q agreement with independent cell-polynomial integration (test).',
+    NOTE_COMMON, 'DESIGN.md 4/C09')
+CLAIMS['C11'] = ('proof', 'Lean 4 theorems on a transcription of v_parallel_advection_eval_step (three boundary modes, wrap loops with termination) + exact-rational correspondence',
+    'vpar_step_formula, vpar_boundary_rule (FEQ r foot / 0 / interpolant at the periodic image inside [vMin,vMax]), vpar_wrap_terminates, vpar_zero_shift_identity, vpar_linear_inside; equilibrium values '
+    'are tagged in the model and compared with the real f_eq; grid-level wiring clause is C05. Exact family: feet exactly on vMin/vMax/nodes and +-1 ulp.', NOTE_COMMON, 'DESIGN.md 4/C11')
+CLAIMS['C12'] = ('other', 'partial proof in Lean 4 (decision logic and algebra of both time schemes over abstract evaluators) + exact-rational correspondence + numerical tests for the analytic clauses',
+    'pol_heun_formula, pol_boundary_rule, pol_impl_feet_in_domain, pol_constant_potential_identity, pol_rigid_rotation, pol_impl_fixed_point_stops, pol_impl_terminates_partial (under geometric decrease; full clause '
+    'kept as pol_impl_terminates_statement). "Explicit and implicit agree to third order in dt" and termination for arbitrary data are analytic: measured as tests (order 2.9-3.2), not proved.',
+    NOTE_COMMON + ' The implicit model takes fuel and rounds carried iterates to 2^-80 (exact rationals grow exponentially).', 'DESIGN.md 4/C12')
+CLAIMS['C17'] = ('proof', 'Lean 4 theorems (local weights are slices of the global ones, sum over ranks in any order = serial quadrature, replicated layouts, closed forms for f=1, min/max of blocks, slot index) + exact-rational correspondence',
+    '19 theorems incl. local_weights_are_global_slices, local_axes_are_layout_ranges, sum_over_ranks_eq_global (List.Perm), sum_over_ranks_replicated, trapezoid_volume_of_one(_3d,_ke), min_max_of_blocks, '
+    'extrema_of_local_extrema, collect_slot(_floor,_injective_in_window,_refuses_float). Real diagnostics and DiagnosticCollector.reduce on all process grids <= 6-8 ranks, three reduce orders, random complex fields.',
+    NOTE_COMMON, 'DESIGN.md 4/C17')
+CLAIMS['C18'] = ('proof', 'Lean 4 theorems on a store model and on a loop program REGENERATED from fullSimulation.py on every run (translator) + correspondence with real HDF5 files and real driver runs',
+    '26 theorems: write_read_roundtrip (any writer/reader partitions), padded_lex_order, fileName_lt_iff, latest_selected, restart_time_parsed, restart_choice, loop bookkeeping on the generated script '
+    '(pre/body/post_counters, run_closed_form, no_zero_division, final_state_checkpointed, loop_split for every saveStep>=1), data flow (pass_is_function_of_f, restart_equals_continue), '
+    'constants_print_parse_roundtrip, constants_order_independent_partial. harness/translate_driver.py (ast) regenerates lean/PygyroVerif/Generated/TimeLoop.lean from the working tree before the build and refuses '
+    'unknown source shapes (=> proof obligation broken). Oracles: bitwise HDF5 round trips p->p\' ranks, restart selection, constants round trip with permuted keys, driver N then M vs N+M.',
+    NOTE_COMMON + ' HDF5 = array store and the translator (about 700 lines of Python over ast) are trusted; file names beyond 6 digits are outside the reading of the property (observation F10).', 'DESIGN.md 4/C18')
+CLAIMS['C19'] = ('translation_validation', 'differential execution of every exported kernel: interpreted reference vs pythran copies (as Python), numba copies (stub numba), and (thorough) the pyccel+gfortran build of a scratch copy; line coverage of the reference measured',
+    'No Lean theorem decides this property: there is no formal semantics of pyccel+gfortran. The reference semantics of the kernels are the models proved in C07/C10-C12/C16; this check validates the translations: '
+    '38 functions + 16 specialised variants, outputs and in-place updates within 1e-12 of the magnitude of the summed terms (bit-equality recorded), function-name and parameter-name parity, build success (thorough). '
+    'Known finding F11 (numba initialiser lacks 5 functions) is listed in KNOWN_FINDINGS.json.',
+    'pyccel/gfortran tool chain of this machine; numba/pythran compilers are not installed (copies run as Python).', 'DESIGN.md 4/C19')
+CLAIMS['C20'] = ('proof', 'Lean 4 theorems on a transcription of both process-grid functions (loops with fuel + proof that the fuel suffices) + exhaustive-box correspondence',
+    'procgrid_terminates, procgrid_valid, nondivisor_never_accepted, nondivisor_strictly_worse, procgrid_error_iff, procgrid_returns_iff, blocks_nonempty_of_bounds, compatible_flux_vpar, compatible_vpar_pol, '
+    'standard_layouts_buildable. Exhaustive box max1,max2<=30,size<=64 (thorough 60/60/128) + random to 1e6 vs the real functions (exact) and a brute-force divisor oracle; real setupCylindricalGrid builds on <= 8 ranks.',
+    NOTE_COMMON + ' Float vs exact ratio comparisons can differ only on exact ties (proved: nondivisor_strictly_worse).', 'DESIGN.md 4/C20')
 PENDING = {
 }
 ALL = ['C%02d' % i for i in range(1, 21)]
